@@ -349,8 +349,21 @@ def r185(ctx, rep):
             # on the x_new path: the store lies in the else-branch of `x_new is None`
             ctxs = enclosing_context(p.ast, f.node)
             on_new_path = any((k == "if-false" and mentions(w, "x_new")) or (k == "if-true" and mentions(w, "x_new") and "not" in norm(w)) for k, w, _ in ctxs)
-            used = any(mentions(n, wname) for a in arg for n in [cfg.nodes[a].ast])
-            reach_ok = all(a in cfg.reachable(p.id, skip_exc=True) for a in arg)
+            if not on_new_path:
+                # early-return form: `if x_new is None: ...; return` precedes the store in the same block
+                def _after_guard(block):
+                    guard_seen = False
+                    for st in block:
+                        if guard_seen and any(x is p.ast for x in ast.walk(st)):
+                            return True
+                        if isinstance(st, ast.If) and norm(st.test) in ("x_new is None",) and st.body and isinstance(st.body[-1], (ast.Return, ast.Raise)) and not st.orelse:
+                            guard_seen = True
+                    return False
+                on_new_path = any(_after_guard(getattr(b, fld)) for b in ast.walk(f.node) for fld in ("body", "orelse", "finalbody") if isinstance(getattr(b, fld, None), list))
+            # argmax sites that only serve the no-new-point case (inside `if x_new is None:`) are exempt
+            arg_new = [a for a in arg if not any(k == "if-true" and norm(w) == "x_new is None" for k, w, _ in enclosing_context(cfg.nodes[a].ast, f.node))]
+            used = any(mentions(n, wname) for a in arg_new for n in [cfg.nodes[a].ast])
+            reach_ok = bool(arg_new) and all(a in cfg.reachable(p.id, skip_exc=True) for a in arg_new)
             good = on_new_path and used and reach_ok
     if good:
         rep.ok("R18.5", desc + f" ({prot[0].text()[:40]})")
